@@ -85,7 +85,10 @@ fn spawn_on_program(value_prog: &str, hop: u64) -> String {
         .trim_end()
         .trim_end_matches("mk ()")
         .trim();
-    let run = if hop == 0 {
+    let run = if hop == 2 {
+        // `join` runs its second action on a new child thread; its result is handed back
+        "io.flat_map (\\p -> io.wrap p._1) (th.join (io.flat_map (\\u -> io.wrap 0) (io.wrap ())) (io.flat_map (\\u -> io.wrap (mk ())) (io.wrap ())))"
+    } else if hop == 0 {
         "io.flat_map (\\t1 -> io.flat_map (\\fut -> fut) (th.spawn_on t1 (io.flat_map (\\u -> io.wrap (mk ())) (io.wrap ())))) (th.new_thread ())"
     } else {
         "io.flat_map (\\t1 -> io.flat_map (\\t2 -> io.flat_map (\\fut -> fut) (th.spawn_on t1 (io.flat_map (\\u -> (let v = mk () in io.flat_map (\\fut2 -> fut2) (th.spawn_on t2 (io.flat_map (\\u2 -> io.wrap v) (io.wrap ()))))) (io.wrap ())))) (th.new_thread ())) (th.new_thread ())"
@@ -237,7 +240,7 @@ impl Engine for C13 {
                 slots += 1;
             } else if roll < 62 {
                 let (prog, callable) = value_program(rng);
-                ops.push(json!({ "op": "spawnon", "hop": rng.below(2), "vm": v, "t": t, "prog": prog, "callable": callable }));
+                ops.push(json!({ "op": "spawnon", "hop": rng.below(3), "vm": v, "t": t, "prog": prog, "callable": callable }));
                 slots += 1;
             } else if roll < 70 {
                 ops.push(json!({ "op": "collect", "vm": v, "t": t }));
@@ -326,7 +329,7 @@ impl Engine for C13 {
                                 let val = val.into_inner();
                                 let enc2 = val.get_variant().verif_encode_graph();
                                 transfers += 1;
-                                run::count(if kind == "chan" { "transfer_channel" } else if hop == 0 { "transfer_spawn_on_child" } else { "transfer_spawn_on_sibling" }, 1);
+                                run::count(if kind == "chan" { "transfer_channel" } else if hop == 0 { "transfer_spawn_on_child" } else if hop == 2 { "transfer_join" } else { "transfer_spawn_on_sibling" }, 1);
                                 if enc2 != enc {
                                     return Err(Violation::new(
                                         "not-isomorphic",
